@@ -1364,6 +1364,10 @@ package sftp
 
 //@ func filestat
 //@   property C07, C02, C10
+//@   assert before call (LstatFileLister).Lstat#1: arg1 == r && r.Method == "Lstat"
+//@   assert before call (FileLister).Filelist#1: arg1 == r && r.Method == "Stat"
+//@   assert before call (FileLister).Filelist#2: arg1 == r && r.Method != "Lstat"
+// (a handler without the optional Lstat method sees an LSTAT as the documented method "Stat")
 //@   requires h != nil && r != nil && pkt != nil && rsReqType(pkt)
 //@   ensures result != nil && result.id() == pkt.id()
 //@   ensures typeis(result, *sshFxpStatResponse) || typeis(result, *sshFxpNamePacket) || typeis(result, *sshFxpStatusPacket)
@@ -1497,7 +1501,7 @@ package sftp
 //@ pred ccOK(c *clientConn) = c != nil && c.inflight != nil && c.Reader != nil && c.WriteCloser != nil && (c.alloc == nil || c.alloc.used != nil)
 
 //@ func (*clientConn).recv
-//@   property C20, C03, C04, C15
+//@   property C20, C03, C04, C15, C08
 //@   requires ccOK(c)
 //@   loop 1 invariant ccOK(c)
 //@   loop 1 ghost consumeOK, consumeSid
@@ -1864,6 +1868,11 @@ package sftp
 
 //@ func translateErrno
 //@   property C07, C10, C05
+//@   ensures errno == 0 ==> result == sshFxOk
+//@   ensures errno == syscall.ENOENT ==> result == sshFxNoSuchFile
+//@   ensures errno == syscall.EACCES || errno == syscall.EPERM ==> result == sshFxPermissionDenied
+//@   ensures errno != 0 && errno != syscall.ENOENT && errno != syscall.EACCES && errno != syscall.EPERM ==> result == sshFxFailure
+//@   modifies nothing
 
 //@ func wrapPathError
 //@   property C07, C10, C05
@@ -1874,6 +1883,15 @@ package sftp
 
 //@ func cleanPath
 //@   property C07, C10, C05
+//@   function
+//@   ensures result == cleanPathWithBase("/", p)
+
+//@ func WithStartDirectory$1
+//@   property C10
+//@   requires rs != nil
+//@   ensures rs.startDirectory == cleanPath(startDirectory)
+// (the configured start directory is stored absolute and clean: every later cleanPathWithBase(rs.startDirectory, p)
+//  joins onto a clean absolute base)
 
 //@ func (*Server).toLocalPath
 //@   property C07, C10, C05
